@@ -48,6 +48,8 @@ pub fn bounds(tier: Tier) -> Vec<ConvBound> {
             mk(Fam::Txt, 1, vec![rcu(1, true, false), rcu(2, true, true)], 3, 0),
             mk(Fam::Uni, 0, vec![rcu(1, true, true), rcu(2, false, false)], 3, 0),
             mk(Fam::Rtx, 0, vec![rcu(1, true, false), rcu(2, true, true)], 3, 0),
+            // shared types embedded in a text (one unit each), deletion ranges over them
+            mk(Fam::Rtx, 4, vec![rcu(1, true, false), rcu(2, true, true)], 3, 0),
             mk(Fam::Arr, 1, vec![rcu(1, true, false), rcu(2, false, false)], 3, 0),
             mk(Fam::Map, 1, vec![rcu(1, true, false), rcu(2, false, false)], 3, 0),
             mk(Fam::Xml, 0, vec![rcu(1, true, false), rcu(2, true, false)], 3, 0),
@@ -59,6 +61,7 @@ pub fn bounds(tier: Tier) -> Vec<ConvBound> {
             mk(Fam::Uni, 0, vec![rcu(1, true, true), rcu(2, false, false)], 4, 0),
             mk(Fam::Rtx, 1, vec![rcu(1, true, false), rcu(2, true, true)], 3, 1),
             mk(Fam::Rtx, 0, vec![rcu(1, true, false), rcu(2, true, true)], 4, 0),
+            mk(Fam::Rtx, 4, vec![rcu(1, true, false), rcu(2, true, true)], 4, 0),
             mk(Fam::Arr, 1, vec![rcu(1, true, false), rcu(2, false, false)], 4, 1),
             mk(Fam::Map, 2, vec![rcu(1, true, false), rcu(2, false, false)], 4, 0),
             mk(Fam::Xml, 1, vec![rcu(1, true, false), rcu(2, true, false)], 3, 1),
